@@ -26,6 +26,7 @@ Public API
     canonical(recipe) -> str ; is_recursive ; nonterminal_deps ; sccs ; is_linearly_recursive ; has_unit_cycle
     classify_entry / compare_dense(dense_tensor, expected_nested, semiring_name, tol)
     reference_sum_products(recipe, semiring_name, max_iter, tol) -> RefValues (dict + .status)
+    brute_force_start_value(recipe, semiring_name)  literal derivation enumeration (cross-check, small cases)
     convert_weights(recipe, semiring_name) ; start_assignments(recipe) ; nested_get
     features_of(recipe) ; FEATURES
     enum_nonrecursive(tier, rng) ; enum_recursive(tier, rng) ; random_grammar(rng, ...)
@@ -510,6 +511,80 @@ def has_unit_cycle(recipe) -> bool:
             if any(v > -INF and new[a] >= v + d - 1e-9 for a, v in val[x].items()):
                 return True
     return False
+
+
+def brute_force_start_value(recipe, semiring_name: str = "Real", max_nodes: int = 9, max_derivations: int = 400,
+                            max_depth: int = 6):
+    """The statement of C01 taken literally (cross-check of reference_sum_products): enumerate every
+    derivation tree of the start symbol (up to max_depth nested rule applications -- all of them for a
+    non-recursive grammar), build the derived factor graph (nodes: the start's external nodes plus
+    a fresh copy of the internal nodes of every rule instance; factors: the terminal edges), and
+    sum over all assignments to its nodes the product of the factor weights.  Returns the nested list
+    indexed by the start's external assignment, or None when a derived graph has more than max_nodes
+    nodes or there are more than max_derivations derivations."""
+    sr = _SR[semiring_name]
+    el, nl = recipe["edge_labels"], recipe["node_labels"]
+    tws = convert_weights(recipe, semiring_name)
+    rules_of: Dict[str, list] = {x: [] for x in nonterminals(recipe)}
+    for r in recipe["rules"]:
+        rules_of[r["lhs"]].append(r)
+
+    class TooBig(Exception):
+        pass
+
+    def expand(nt: str, ext_ids: Tuple[int, ...], sizes: Tuple[int, ...], depth: int):
+        """-> list of (sizes of all nodes so far, factors) ; a factor is (terminal label, global node ids)."""
+        if depth > max_depth:
+            return []
+        out = []
+        for r in rules_of[nt]:
+            ids: List[Optional[int]] = [None] * len(r["nodes"])
+            for j, gid in zip(r["ext"], ext_ids):
+                ids[j] = gid
+            sz = list(sizes)
+            for j, l in enumerate(r["nodes"]):
+                if ids[j] is None:
+                    ids[j] = len(sz)
+                    sz.append(nl[l])
+            if len(sz) > max_nodes:
+                raise TooBig()
+            partial = [(tuple(sz), [])]
+            for e in r["edges"]:
+                g_att = tuple(ids[j] for j in e["att"])
+                nxt = []
+                for psz, pf in partial:
+                    if el[e["label"]]["terminal"]:
+                        nxt.append((psz, pf + [(e["label"], g_att)]))
+                    else:
+                        for csz, cf in expand(e["label"], g_att, psz, depth + 1):
+                            nxt.append((csz, pf + cf))
+                partial = nxt
+                if len(partial) > max_derivations:
+                    raise TooBig()
+            out.extend(partial)
+            if len(out) > max_derivations:
+                raise TooBig()
+        return out
+
+    s = recipe["start"]
+    shp = shape_of(recipe, s)
+    try:
+        derivs = expand(s, tuple(range(len(shp))), tuple(shp), 0)
+    except TooBig:
+        return None
+
+    def value(a):
+        total = sr.zero
+        for sz, factors in derivs:
+            inner = [range(n) for n in sz[len(shp):]]
+            for rest in itertools.product(*inner):
+                asst = tuple(a) + rest
+                p = sr.one
+                for t, gids in factors:
+                    p = sr.mul(p, nested_get(tws[t], [asst[g] for g in gids]))
+                total = sr.add(total, p)
+        return total
+    return nested_from(shp, value)
 
 
 # --------------------------------------------------------------------------------------
@@ -1245,6 +1320,22 @@ def _selftest():
                 assert _close(la, l, 1e-9), (canonical(g), x, a, l)
                 assert bb == (a > 0), (canonical(g), x)
                 assert v <= l + 1e-9 or v == l, (canonical(g), x, v, l)
+    # the literal "sum over derivations x assignments of the derived factor graph" agrees with the reference
+    n_bf = 0
+    for g in enum_nonrecursive("quick", random.Random(1)):
+        for sname in SEMIRINGS:
+            bf = brute_force_start_value(g, sname)
+            if bf is None:
+                break
+            n_bf += 1
+            rv_ = reference_sum_products(g, sname)[g["start"]]
+            for a, b in zip(flatten(bf), flatten(rv_)):
+                assert _close(a, b, 1e-9), (canonical(g), sname, bf, rv_)
+    assert n_bf > 600, n_bf
+    g = [x for x in handwritten_recursive() if x["meta"]["family"] == "selfloop-w0.9"][0]
+    for k in (1, 3, 6):     # derivations of bounded depth == Kleene iterate
+        bf = brute_force_start_value(g, "Real", max_depth=k, max_derivations=10000, max_nodes=50)
+        assert _close(bf, reference_sum_products(g, "Real", depth=k)["S"], 1e-12), (k, bf)
     missing = [p for p in feature_pairs() if len(p) == 2 and tuple(p) not in cover and tuple(reversed(p)) not in cover]
     assert not missing, missing
     nr = 0
@@ -1283,7 +1374,7 @@ def _selftest():
                 exp = reference_sum_products(g, sname)["S"]
                 assert _close(z.item(), exp, 1e-9), (sname, z, exp)
         assert _close(ref["S"], 0.5 * 1 + 1 * 3 + 2 * 1 + 0.25 * 3)
-    print(f"gen_fgg self-test ok: {n} non-recursive, {nr} recursive ({st}), "
+    print(f"gen_fgg self-test ok: {n} non-recursive ({n_bf} brute-force cross-checks), {nr} recursive ({st}), "
           f"{len(cover)} feature pairs covered, {time.time() - t0:.1f}s")
 
 
